@@ -154,10 +154,10 @@ func TestVP_C37_Stress(t *testing.T) {
 			c.Close()
 		}
 		client := &Client{Dial: dial, MaxConnsPerHost: 4, MaxIdleConnDuration: 20 * time.Millisecond, ReadTimeout: 2 * time.Second, WriteTimeout: 2 * time.Second}
-		hc := &HostClient{Addr: "h:80", Dial: dial, MaxConns: 3, MaxConnWaitTimeout: 200 * time.Millisecond, ReadTimeout: 2 * time.Second, WriteTimeout: 2 * time.Second}
+		hc := &HostClient{Addr: "h:80,h2:80,h3:80", Dial: dial, MaxConns: 3, MaxConnWaitTimeout: 200 * time.Millisecond, ReadTimeout: 2 * time.Second, WriteTimeout: 2 * time.Second}
 		pc := &PipelineClient{Addr: "h:80", Dial: dial, MaxConns: 2, MaxPendingRequests: 8, ReadTimeout: 2 * time.Second, WriteTimeout: 2 * time.Second, Logger: vpNopLogger{}}
 		lb := &LBClient{Clients: []BalancingClient{
-			&HostClient{Addr: "a:80", Dial: dial, ReadTimeout: 2 * time.Second},
+			&HostClient{Addr: "a:80,a2:80", Dial: dial, ReadTimeout: 2 * time.Second, MaxIdleConnDuration: 5 * time.Millisecond},
 			&HostClient{Addr: "b:80", Dial: dial, ReadTimeout: 2 * time.Second},
 		}, Timeout: 2 * time.Second}
 		var wg sync.WaitGroup
